@@ -68,6 +68,14 @@ pub trait RichField: Sized + Copy {
     fn to_canonical_u64(&self) -> (r: u64)
         ensures r as int == self.fv(), (r as int) < P();
 }
+/// to_canonical_u64 exists for every field value, so fv() is a canonical u64
+pub proof fn lemma_fv_range<FF: RichField>(f: FF)
+    ensures 0 <= f.fv() < 0x1_0000_0000_0000_0000,
+{ admit_fv_range(f); }
+#[verifier::external_body]
+pub proof fn admit_fv_range<FF: RichField>(f: FF)
+    ensures 0 <= f.fv() < 0xFFFF_FFFF_0000_0001,
+{ } // TB-1: field values are canonical
 pub trait Extendable<const D: usize> { }
 pub trait AlgebraicHasher<F> { }
 pub struct Poseidon2Hash { }
